@@ -562,8 +562,22 @@ namespace
         }
         void on_after_start_graph(const GraphView &g) override { J("gstarted").i("g", inst_of(g)).emit(); }
         void on_start_graph_failed(const GraphView &g) override { J("gstartfail").i("g", inst_of(g)).emit(); }
-        void on_before_start_node(const NodeView &n) override { J("nstart").i("g", inst_of(n)).i("n", static_cast<long>(n.node_index())).emit(); }
-        void on_after_start_node(const NodeView &n) override { J("nstarted").i("g", inst_of(n)).i("n", static_cast<long>(n.node_index())).emit(); }
+        static long id_of(const NodeView &n)
+        {
+            try
+            {
+                if (!n.has_scalars()) { return -1; }
+                auto b = n.scalars().as_bundle();
+                if (b.has_field("id")) { return static_cast<long>(b.at("id").checked_as<Int>()); }
+            }
+            catch (...) {}
+            return -1;
+        }
+        void on_before_start_node(const NodeView &n) override
+        {
+            J("nstart").i("g", inst_of(n)).i("n", static_cast<long>(n.node_index())).i("id", id_of(n)).str("name", n.schema() ? n.schema()->name() : "?").emit();
+        }
+        void on_after_start_node(const NodeView &n) override { J("nstarted").i("g", inst_of(n)).i("n", static_cast<long>(n.node_index())).i("id", id_of(n)).emit(); }
         void on_start_node_failed(const NodeView &n) override { J("nstartfail").i("g", inst_of(n)).i("n", static_cast<long>(n.node_index())).emit(); }
         void on_before_graph_evaluation(const GraphView &g) override
         {
@@ -581,7 +595,7 @@ namespace
         {
             J("evald").i("g", inst_of(n)).i("n", static_cast<long>(n.node_index())).emit();
         }
-        void on_before_stop_node(const NodeView &n) override { J("nstop").i("g", inst_of(n)).i("n", static_cast<long>(n.node_index())).emit(); }
+        void on_before_stop_node(const NodeView &n) override { J("nstop").i("g", inst_of(n)).i("n", static_cast<long>(n.node_index())).i("id", id_of(n)).emit(); }
         void on_after_stop_node(const NodeView &n) override { J("nstopped").i("g", inst_of(n)).i("n", static_cast<long>(n.node_index())).emit(); }
         void on_stop_node_failed(const NodeView &n) override { J("nstopfail").i("g", inst_of(n)).i("n", static_cast<long>(n.node_index())).emit(); }
         void on_before_stop_graph(const GraphView &g) override { J("gstop").i("g", inst_of(g)).emit(); }
